@@ -17,6 +17,7 @@ import (
 //   - dynamic calls of function values: every karpenter function whose address is taken
 //     (named function used as a value, bound method) with an identical signature
 //   - lexical closure attachment: a function "calls" each anonymous function it creates
+//
 // Edges out of dependency code are not followed: a closure handed to lo.Filter is reached through
 // the lexical edge from its creator, which over-approximates the real call and needs no library body.
 type CallGraph struct {
